@@ -41,7 +41,8 @@ def heap_slice_conf(name, nq, nt, rule):
 
 JSON_TRUSTED = [
     "oracles: strconv.FormatFloat(x,'e'|'f',-1,64) and strconv.ParseFloat(s,64) are Section variables in the theorems with contract F1 (a finite value's text "
-    "parses back to it), F2 (the text has the shape of a JSON number), F3 (true/false are not floats); executions use per-case tables produced by Go, and the "
+    "parses back to it), F2 (the text has the shape of a JSON number), F3 (true/false are not floats), F5 (the 'e' format contains an 'e' or a '.'; that a float's "
+    "text is never an integer literal is DERIVED from F2+F5, FloatText.v); executions use per-case tables produced by Go, and the "
     "contract is re-validated inside Coq on every table entry of every case",
     "modelled, not verified (hand transcriptions, validated differentially on every run): utf8.DecodeRuneInString, utf8.AppendRune, unicode.IsSpace, strconv.Itoa, "
     "strconv.ParseInt(base 0), strconv.ParseBool, strconv.Unquote (double-quote case), json.Indent (spec-level: reference decoder + canonical re-layout)",
